@@ -1,1 +1,2 @@
+#include <iostream>  // the real gtsam headers pull this in (Eigen); generated gateways use std::cout
 #pragma once
